@@ -65,6 +65,7 @@ type c16In struct {
 	Steps      []c16Step  `json:"steps"`
 	Concurrent bool       `json:"concurrent,omitempty"` // orders run as free goroutines; Steps is one serialization
 	DNSTTL     int        `json:"dns_ttl,omitempty"`    // DNSManager.TTL in seconds: 0 (none), 10 (below the provider's minimum of 60 s: stored as 60 s), 120
+	OtherInst  bool       `json:"other_instance_order,omitempty"` // before the history: a TLS-ALPN-01 order of another instance is validated through this one
 	Override   bool       `json:"override,omitempty"`   // DNS01Solver.OverrideDomain is set: every DNS challenge uses that one record name
 	Cfg        *c16Cfg    `json:"cfg,omitempty"`        // an issuer configuration whose solver set is looked at (c16_cfg.go)
 	E2E        *c16E2E    `json:"e2e,omitempty"`        // whole orders through the real ACMEIssuer and the mock CA (c16_e2e.go)
@@ -105,7 +106,37 @@ func c16NewEnv() *c16Env {
 	}
 	cfg, cache := doubles.NewConfig(doubles.NilCtxStorage{S: e.backend.Handle("A")}, certmagic.Config{}, certmagic.CacheOptions{})
 	e.cfg, e.stop = cfg, cache.Stop
+	// the issuer under whose key this instance looks for challenges of other instances
+	cfg.Issuers = []certmagic.Issuer{certmagic.NewACMEIssuer(cfg, certmagic.ACMEIssuer{CA: c16CA, Email: "x@example.com", Agreed: true, Logger: zap.NewNop()})}
 	return e
+}
+
+// otherInstanceOrder plays a whole TLS-ALPN-01 order of ANOTHER instance of the cluster past this
+// one: the other instance presents (its token appears in the shared storage), the CA's validation
+// hello lands HERE (this instance loads the token and has to generate the challenge certificate),
+// the other instance cleans up. This instance never gets a CleanUp for that order: nothing of it may
+// stay in this process's memory (every new activeChallenges key shows in the snapshots that follow).
+func (e *c16Env) otherInstanceOrder(r *rand.Rand) error {
+	iss := e.cfg.Issuers[0].(*certmagic.ACMEIssuer)
+	st, err := certmagic.VerifChallengeSolvers(iss, false)
+	if err != nil {
+		return err
+	}
+	d := certmagic.VerifDescribeSolver(st[acme.ChallengeTypeTLSALPN01])
+	remote := certmagic.VerifDistributedSolver(e.backend.Handle("B"), d.Prefix, &doubles.NoopSolver{})
+	tok := c15Token(r)
+	ch := acme.Challenge{Type: acme.ChallengeTypeTLSALPN01, Token: tok, KeyAuthorization: tok + "." + c15Token(r),
+		Identifier: acme.Identifier{Type: "dns", Value: fmt.Sprintf("elsewhere-%d.example", e.seq)}}
+	if err := remote.Present(context.Background(), ch); err != nil {
+		return err
+	}
+	hello, done := doubles.Hello(ch.Identifier.Value, acmez.ACMETLS1Protocol)
+	cert, herr := e.cfg.GetCertificate(hello)
+	done()
+	if herr != nil || cert == nil {
+		e.e2eBad = append(e.e2eBad, fmt.Sprintf("validation hello for another instance's pending TLS-ALPN-01 challenge was not answered here: %v", herr))
+	}
+	return remote.CleanUp(context.Background(), ch)
 }
 
 const c16CA = "https://ca-one.test/dir"
@@ -550,6 +581,11 @@ func (e *c16Env) runHistory(w *emit.Writer, in c16In, desc map[string]any, r *ra
 			}
 		}
 	} else {
+		if in.OtherInst && !e.hung {
+			if err := e.otherInstanceOrder(r); err != nil {
+				return err
+			}
+		}
 		pending := map[int]bool{}
 		for k, st := range in.Steps {
 			var err error
@@ -813,6 +849,13 @@ func runC16(tier string, seed int64, outdir string, replay string) (retErr error
 		}
 	}
 
+	// ---- an order of another instance validated through this one, before local orders
+	for _, kind := range []string{"tlsalpn", "http", "dns"} {
+		if err := run(c16In{OtherInst: true, Addrs: []string{"free"}, Orders: []c16Order{O(kind, 0, "a")}, Steps: []c16Step{{Order: 0}, {Clean: true, Order: 0}}},
+			map[string]any{"shape": "other-instance-order"}); err != nil {
+			return err
+		}
+	}
 	// ---- A. two orders on one address, every interleaving, every kind pairing
 	// (one address is never used for both kinds: the listener speaks the protocol of whoever opened
 	// it, and the two solvers signal "closed" through different flags; not a configuration that exists)
@@ -958,7 +1001,7 @@ func runC16(tier string, seed int64, outdir string, replay string) (retErr error
 	}
 	for k := 0; k < nF; k++ {
 		n := 2 + r.Intn(3)
-		in := c16In{Honour: r.Intn(2) == 0, Addrs: []string{"free", "free"}, Override: r.Intn(5) == 0}
+		in := c16In{Honour: r.Intn(2) == 0, Addrs: []string{"free", "free"}, Override: r.Intn(5) == 0, OtherInst: r.Intn(4) == 0}
 		if r.Intn(6) == 0 {
 			in.Addrs[1] = "occupied"
 		}
